@@ -19,8 +19,8 @@ def write_files(a, d, idx):
 
     def w(name, text):
         p = os.path.join(d, "af%d_%s" % (idx, name))
-        with open(p, "w") as fh:
-            fh.write(text)
+        with open(p, "wb") as fh:
+            fh.write(text.encode("latin-1") if isinstance(text, str) else text)
         return p
     f[("iccma", "good")] = w("good.af", iccma_file(a))
     f[("apx", "good")] = w("good.apx", apx_file(a))
@@ -31,6 +31,8 @@ def write_files(a, d, idx):
     f[("iccma", "afterblank")] = w("afterblank.af", "p af %d\n\n1 1\n" % n)
     f[("apx", "undeclared")] = w("undeclared.apx", apx_file(a) + "att(a1,zz).\n")
     f[("apx", "argafteratt")] = w("argafteratt.apx", apx_file(a) + "att(a1,a1).\narg(b).\n")
+    # a comment line that is not valid UTF-8 (Latin-1 "généré"), BEFORE the attacks
+    f[("iccma", "bincomment")] = w("bincomment.af", ("p af %d\n# g\xe9n\xe9r\xe9 par un outil\n" % n) + "".join("%d %d\n" % (x, y) for x, y in a["att"]))
     f[("iccma", "wrongformat")] = f[("apx", "good")]      # an Aspartix file handed to the ICCMA reader
     f[("apx", "wrongformat")] = f[("iccma", "good")]
     return f
@@ -227,7 +229,7 @@ def problems_events(bins):
 
 ICCMA_TEXT = {"cmt": "# a comment 1 2", "empty": "", "ws": "  ", "hdr": "p af 3", "hdr0": "p af 0", "hdrKind": "p cnf 3", "hdrP": "q af 3",
               "hdrNum": "p af x", "hdrNeg": "p af -1", "hdrShort": "p af", "a12": "1 2", "a23": "2 3", "a33": "3 3", "aOOR": "1 4",
-              "aZero": "0 1", "aOne": "1", "aThree": "1 2 3", "aNaN": "a b"}
+              "aZero": "0 1", "aOne": "1", "aThree": "1 2 3", "aNaN": "a b", "cmtBin": "# g\xe9n\xe9r\xe9 par un outil", "aBin": "1 \xe92"}
 APX_TEXT = {"argA": "arg(a).", "argB": "arg(b).", "argC": "arg(c).", "argSp": "arg( a ).", "argBad": "arg(1a).", "attAB": "att(a,b).",
             "attBC": "att(b,c).", "attCC": "att(c,c).", "attSp": "att( a , b ).", "attUnd": "att(a,z).", "attOne": "att(a).",
             "attThree": "att(a,b,c).", "attBad": "att(a,1b).", "junk": "hello.", "nodot": "arg(a)", "empty": "", "ws": "   "}
@@ -244,8 +246,8 @@ def check_command_events(files, workdir, bins, seed, count):
         table = ICCMA_TEXT if f["fmt"] == "iccma" else APX_TEXT
         text = "".join(table[k] + "\n" for k in f["lines"])
         p = os.path.join(d, "f%d.%s" % (i, "af" if f["fmt"] == "iccma" else "apx"))
-        with open(p, "w") as fh:
-            fh.write(text)
+        with open(p, "wb") as fh:
+            fh.write(text.encode("latin-1"))
         jobs.append((f, [bins["crustabri"], "check", "-f", p, "-r", "iccma23" if f["fmt"] == "iccma" else "apx", "--logging-level", "off"]))
 
     def one(job):
